@@ -20,6 +20,11 @@ use elf::ElfBytes;
 pub const DEF: PropDef = PropDef { id: "C03", strata, run, setup, canaries: &["panic"] };
 
 fn setup(ctx: &mut Ctx) {
+    #[cfg(all(target_pointer_width = "64", not(miri)))]
+    {
+        ctx.floor("huge-slice:opened", 1000);
+        ctx.floor("huge-slice:sections-at>=2^32", 5000);
+    }
     ctx.floor("section_data:ok-range-checked", 5000);
     ctx.floor("section_data:out-of-file-err", 500);
     ctx.floor("section_data:nobits-empty", 200);
@@ -45,7 +50,7 @@ fn setup(ctx: &mut Ctx) {
 }
 
 fn strata(t: Tier) -> Vec<Stratum> {
-    vec![st("generated-objects", scale(t, 720_000, 7_200_000, 4)), st("fabricated-headers", scale(t, 360_000, 3_600_000, 4))]
+    vec![st("generated-objects", scale(t, 720_000, 7_200_000, 4)), st("fabricated-headers", scale(t, 360_000, 3_600_000, 4)), st("slices-beyond-4GiB", scale(t, 3_200, 32_000, 0))]
 }
 
 pub enum Expect {
@@ -417,7 +422,78 @@ fn judge_tables(ctx: &mut Ctx, f: &ElfBytes<'_, AnyEndian>, buf: &[u8], enc: Enc
     true
 }
 
+/// An ELF64 object inside a slice that really is longer than 4 GiB: a hole of 2^32 zero bytes is spliced in at a
+/// structure boundary and every file offset behind it moved up, so sections, segments and tables live at offsets
+/// >= 2^32. Same judges as for ordinary files (native 64-bit only; the zero pages of the hole cost no memory).
+fn huge_slice_case(ctx: &mut Ctx) {
+    let enc = Enc { c64: true, big: ctx.rng.bool() };
+    let mut o = GenOpts::standard();
+    o.max_syms = 8;
+    o.weird_views = false;
+    let (spec, _m) = gen_object(&mut ctx.rng, enc, &o);
+    let mut b = build(&spec, &mut ctx.rng);
+    let cands = mutate::cut_points(&b);
+    if cands.is_empty() {
+        ctx.count("huge-slice:no-cut-point");
+        return;
+    }
+    let at = cands[ctx.rng.usize_below(cands.len())] as usize;
+    let hole: usize = [1usize << 32, (1 << 32) - 16, (1 << 32) - at.min(1 << 31)][ctx.rng.usize_below(3)];
+    mutate::relocate(&mut b, at as u64, hole as u64);
+    let bytes = b.bytes.clone();
+    if bytes.len() + hole > super::util::HUGE_LEN {
+        return;
+    }
+    ctx.set_input(&bytes);
+    ctx.nontrivial(crate::rng::mix(crate::rng::fnv64(&bytes), (at ^ hole) as u64));
+    let what = format!("generated {} ({} bytes) inside a slice with a hole of {hole:#x} zero bytes at {at:#x}", enc.name(), bytes.len());
+    ctx.sample(|| what.clone());
+    let done = super::util::with_huge_buffer(|buf| {
+        buf[..at].copy_from_slice(&bytes[..at]);
+        buf[at + hole..bytes.len() + hole].copy_from_slice(&bytes[at..]);
+        {
+            let view: &[u8] = &buf[..bytes.len() + hole];
+            match open_slice(view) {
+                Ok(f) => {
+                    ctx.count("huge-slice:opened");
+                    let mut ok = true;
+                    if let Some(shdrs) = f.section_headers() {
+                        for sh in shdrs.iter() {
+                            if sh.sh_offset >= 1 << 32 {
+                                ctx.count("huge-slice:sections-at>=2^32");
+                            }
+                            if ok && !judge_section(ctx, &f, view, enc, &sh, &what) {
+                                ok = false;
+                            }
+                        }
+                    }
+                    if let Some(phdrs) = f.segments() {
+                        for ph in phdrs.iter() {
+                            if ok && !judge_segment(ctx, &f, view, enc, &ph, &what) {
+                                ok = false;
+                            }
+                        }
+                    }
+                    if ok {
+                        judge_tables(ctx, &f, view, enc, &what);
+                    }
+                }
+                Err(e) => ctx.violation("huge-slice:does-not-open", format!("{what}: the relocated file does not open: {e}")),
+            }
+        }
+        buf[..at].fill(0);
+        buf[at + hole..bytes.len() + hole].fill(0);
+    });
+    if done.is_none() {
+        ctx.count("huge-slice:not-on-this-target");
+    }
+}
+
 fn run(ctx: &mut Ctx, si: usize, _case: u64) {
+    if si == 2 {
+        huge_slice_case(ctx);
+        return;
+    }
     let enc = Enc::ALL[ctx.rng.usize_below(4)];
     let mut o = GenOpts::standard();
     o.max_syms = 8;
